@@ -193,6 +193,22 @@ fn mode_reference(n: usize, path: &str) {
     std::fs::write(path, bytes).expect("write reference stream");
 }
 
+/// sequential reference execution: the main thread draws n, then `threads` threads one after another (each joined
+/// before the next starts) draw n each. Layout of the file: (threads + 1) streams of n little-endian u32s.
+fn mode_reference_seq(threads: usize, n: usize, path: &str) {
+    let mut bytes = Vec::with_capacity((threads + 1) * n * 4);
+    for p in draw_main(n) {
+        bytes.extend_from_slice(&p.to_le_bytes());
+    }
+    for _ in 0..threads {
+        let v = std::thread::spawn(move || draw_main(n)).join().expect("reference thread");
+        for p in v {
+            bytes.extend_from_slice(&p.to_le_bytes());
+        }
+    }
+    std::fs::write(path, bytes).expect("write reference streams");
+}
+
 fn load_reference(path: &str) -> Vec<u32> {
     let b = std::fs::read(path).expect("reference file");
     b.chunks_exact(4).map(|c| u32::from_le_bytes([c[0], c[1], c[2], c[3]])).collect()
@@ -200,8 +216,12 @@ fn load_reference(path: &str) -> Vec<u32> {
 
 #[derive(Debug, PartialEq, Clone, Copy)]
 enum SourceModel {
+    /// every thread sees the same stream from its start
     PerThread,
+    /// one process-wide source: the draws of all threads partition the sequential stream
     Global,
+    /// one source per thread, seeded in the order in which threads first draw: the k-th thread to draw sees stream k
+    PerThreadSeeded,
     Unknown,
 }
 
@@ -210,15 +230,22 @@ fn mode_stress(eng: &Engine, report: &mut Report) {
     let threads = a.u64("workers", 8) as usize;
     let per_thread = a.u64("creations", if a.thorough() { 3_000_000 } else { 600_000 }) as usize;
     let rounds = a.u64("rounds", if a.thorough() { 5 } else { 2 }) as usize;
-    let r: Vec<u32> = match a.opt("reference") {
+    let all: Vec<u32> = match a.opt("reference") {
         Some(p) => load_reference(&p),
         None => {
-            report.inconclusive("no --reference stream given");
+            report.inconclusive("no --reference stream file given");
             return;
         }
     };
+    // the reference file holds (ref_threads + 1) sequentially produced streams of ref_len draws each
+    let ref_threads = a.u64("ref-threads", 0) as usize;
+    let ref_len = if ref_threads + 1 > 0 { all.len() / (ref_threads + 1) } else { all.len() };
+    let stream = |j: usize| -> &[u32] { &all[j * ref_len..(j + 1) * ref_len] };
+    // for a process-wide source the sequential stream R is the concatenation of the reference streams
+    let r: &[u32] = &all;
     let reference_stable = a.str("reference-stable", "yes") == "yes";
-    report.extra("reference_stream_len", r.len());
+    report.extra("reference_streams", ref_threads + 1);
+    report.extra("reference_stream_len", ref_len);
     report.extra("reference_stream_reproducible", reference_stable);
 
     // ---- calibration: main draws, a joined thread draws, main draws
@@ -226,17 +253,21 @@ fn mode_stress(eng: &Engine, report: &mut Report) {
     let m1 = draw_main(k);
     let th = std::thread::spawn(move || draw_main(k)).join().unwrap();
     let m2 = draw_main(k);
-    let model = if !reference_stable {
+    let s0 = stream(0);
+    let model = if !reference_stable || ref_len < 3 * k {
         SourceModel::Unknown
-    } else if m1[..] == r[..k] && th[..] == r[..k] && m2[..] == r[k..2 * k] {
+    } else if m1[..] == s0[..k] && th[..] == s0[..k] && m2[..] == s0[k..2 * k] {
         SourceModel::PerThread
     } else if m1[..] == r[..k] && th[..] == r[k..2 * k] && m2[..] == r[2 * k..3 * k] {
         SourceModel::Global
+    } else if ref_threads >= 1 && m1[..] == s0[..k] && th[..] == stream(1)[..k] && m2[..] == s0[k..2 * k] {
+        SourceModel::PerThreadSeeded
     } else {
         SourceModel::Unknown
     };
     report.extra("priority_source_model", format!("{:?}", model));
-    report.sample(Json::obj().set("calibration", "main draws 64, a joined thread draws 64, main draws 64").set("model_decided", format!("{:?}", model)).set("first_reference_priorities", Json::from(r.iter().take(6).map(|&x| x as u64).collect::<Vec<u64>>())));
+    report.sample(Json::obj().set("calibration", "main draws 64, a joined thread draws 64, main draws 64").set("model_decided", format!("{:?}", model)).set("first_reference_priorities", Json::from(s0.iter().take(6).map(|&x| x as u64).collect::<Vec<u64>>())));
+    let mut next_generator = 2usize; // PerThreadSeeded: generators 0 (main) and 1 (calibration thread) are taken
     let mut consumed_global = 3 * k; // positions of R already used in the global model
 
     for round in 0..rounds {
@@ -298,11 +329,11 @@ fn mode_stress(eng: &Engine, report: &mut Report) {
             SourceModel::PerThread => {
                 for (tid, s) in streams.iter().enumerate() {
                     report.inc("streams_checked");
-                    if s.len() > r.len() {
+                    if s.len() > s0.len() {
                         report.inconclusive("reference stream too short");
                         continue;
                     }
-                    if let Some(pos) = (0..s.len()).find(|&i| s[i] != r[i]) {
+                    if let Some(pos) = (0..s.len()).find(|&i| s[i] != s0[i]) {
                         report.violation(
                             "priority_stream_not_sequential:per_thread",
                             Json::obj()
@@ -311,7 +342,7 @@ fn mode_stress(eng: &Engine, report: &mut Report) {
                                 .set("round", round)
                                 .set("first_differing_draw", pos)
                                 .set("got", s[pos])
-                                .set("want", r[pos]),
+                                .set("want", s0[pos]),
                             vec!["--mode".into(), "stress".into()],
                         );
                     }
@@ -376,6 +407,44 @@ fn mode_stress(eng: &Engine, report: &mut Report) {
                 }
                 consumed_global += total;
             }
+            SourceModel::PerThreadSeeded => {
+                // the threads of this round took the next `threads` generators in some order: every observed stream must
+                // be the sequential stream of exactly one of them
+                report.inc("streams_checked");
+                let lo = next_generator;
+                let hi = next_generator + streams.len();
+                next_generator = hi;
+                if hi > ref_threads + 1 {
+                    report.inconclusive("reference file holds too few sequential streams");
+                    continue;
+                }
+                let mut used = vec![false; hi - lo];
+                for (tid, s) in streams.iter().enumerate() {
+                    if s.len() > ref_len {
+                        report.inconclusive("reference stream too short");
+                        continue;
+                    }
+                    let hit = (lo..hi).find(|&j| !used[j - lo] && stream(j)[..s.len()] == s[..]);
+                    match hit {
+                        Some(j) => used[j - lo] = true,
+                        None => {
+                            // which generator does it start like?
+                            let like = (0..=ref_threads).find(|&j| !s.is_empty() && stream(j)[0] == s[0]);
+                            let first_diff = like.map(|j| (0..s.len()).find(|&i| stream(j)[i] != s[i]));
+                            report.violation(
+                                "priority_stream_not_sequential:per_thread_seeded",
+                                Json::obj()
+                                    .set("what", "a thread's priority stream is not the stream any sequential execution gives to one of this round's generators (or two threads observed the same generator)")
+                                    .set("thread", tid)
+                                    .set("round", round)
+                                    .set("starts_like_generator", like.map(|x| x as u64))
+                                    .set("first_differing_draw", first_diff.flatten().map(|x| x as u64)),
+                                vec!["--mode".into(), "stress".into()],
+                            );
+                        }
+                    }
+                }
+            }
             SourceModel::Unknown => {
                 // the priority source matches neither calibrated model (or the reference stream is not reproducible):
                 // the stream sub-check is not applicable, the verdict rests on the race detectors and on the treap results
@@ -402,6 +471,9 @@ fn main() {
         }
         "reference" => {
             mode_reference(get("--draws", "1000").parse().unwrap(), &get("--ref-out", "reference.bin"));
+        }
+        "reference-seq" => {
+            mode_reference_seq(get("--ref-threads", "4").parse().unwrap(), get("--draws", "1000").parse().unwrap(), &get("--ref-out", "reference.bin"));
         }
         "stress" => {
             let eng = Engine::start("racemon");
